@@ -880,6 +880,102 @@ def check_required_src(coll_src):
             "  !(unmoved i && unmoved j) && decide (minDistanceSrc own i j > neverCollides)\n")
 
 
+def body_after(src, header):
+    """body of the function whose header text starts with `header` (for names that occur twice in a file)"""
+    k = src.find(header)
+    if k < 0:
+        raise TranslateError("not found: " + header)
+    j = src.index("{", src.index(")", k))
+    # skip a return type that contains no brace
+    depth, i = 1, j + 1
+    while depth:
+        if src[i] == "{":
+            depth += 1
+        elif src[i] == "}":
+            depth -= 1
+        i += 1
+    return " ".join(re.sub(r"//[^\n]*", "", src[j + 1:i - 1]).split())
+
+
+def robot_body_src(coll_src):
+    """the public methods of `RobotBody` and `process_collision_tasks`: which safety table, which mode override and which skip
+    set reach `detect_collisions_with_skips`, and what is done with the task verdicts per mode"""
+    POSES = ("let joint_poses = kinematics.forward_with_joint_poses(qs); let joint_poses_f32: [Isometry3<f32>; 6] = "
+             "joint_poses.map(|pose| pose.cast::<f32>()); ")
+    SAF = {"&self.safety": "own", "&safety_distances": "other", "&safety": "safety"}
+    MODE = {"None": "none", "Some(CheckMode::FirstCollisionOnly)": "(some CheckMode.firstCollisionOnly)",
+            "&Some(CheckMode::FirstCollisionOnly)": "(some CheckMode.firstCollisionOnly)",
+            "Some(CheckMode::AllCollsions)": "(some CheckMode.allCollisions)", "&override_mode": "overrideMode"}
+    out = []
+    # process_collision_tasks
+    f = body_after(coll_src, "fn process_collision_tasks(")
+    if f != ("let mode = override_mode.unwrap_or(safety.mode); if mode == CheckMode::NoCheck { Vec::new() } else if mode == CheckMode::FirstCollisionOnly "
+             "{ tasks .par_iter() .find_map_any(|task| task.collides(&safety)) .into_iter() .collect() } else { tasks .par_iter() "
+             ".filter_map(|task| task.collides(&safety)) .collect() }"):
+        raise TranslateError("process_collision_tasks changed: " + f)
+    out.append("/-- `process_collision_tasks`: mode = override or the table's own; nothing / any one colliding task (`find_map_any`, the model's\n"
+               "`choice`) / all colliding tasks in task order -/\n"
+               "def processTasksSrc (sc : Scene R) (safety : Safety R) (overrideMode : Option CheckMode) (ts : List (Nat × Nat))\n"
+               "    (choice : List (Nat × Nat) → Option (Nat × Nat)) : List (Nat × Nat) :=\n"
+               "  let mode := overrideMode.getD safety.mode;\n"
+               "  let hits := (ts.filter (fun p => taskCollides sc safety p.1 p.2)).map normPair;\n"
+               "  if mode == CheckMode.noCheck then []\n"
+               "  else if mode == CheckMode.firstCollisionOnly then\n"
+               "    (match hits with\n     | [] => []\n     | h :: _ => match choice hits with\n       | some c => if hits.contains c then [c] else [h]\n       | none => [h])\n"
+               "  else hits\n")
+    # detect_collisions -> detect_collisions_with_skips with the empty skip set
+    f = body_after(coll_src, "fn detect_collisions(")
+    m = re.match(r"^let empty_set: HashSet<usize> = HashSet::with_capacity\(0\); self\.detect_collisions_with_skips\(joint_poses, (&\w+), (&\w+), &empty_set\) "
+                 r"\.iter\(\) \.map\(\|&col_pair\| \(col_pair\.0 as usize, col_pair\.1 as usize\)\) \.collect\(\)$", f)
+    if not m or m.group(1) not in SAF or m.group(2) not in MODE:
+        raise TranslateError("detect_collisions changed: " + f)
+    out.append("/-- `detect_collisions`: no skipped links -/\ndef detectCollisionsSrc (sc : Scene R) (own safety : Safety R) (overrideMode : Option CheckMode)\n"
+               "    (choice : List (Nat × Nat) → Option (Nat × Nat)) : List (Nat × Nat) :=\n"
+               f"  processTasksSrc sc {SAF[m.group(1)]} {MODE[m.group(2)]} (tasksSrc sc own []) choice\n")
+    for name, lean in [("collision_details", "collisionDetailsSrc"), ("near", "nearSrc")]:
+        f = body_after(coll_src, f"pub fn {name}(")
+        m = re.match(r"^" + re.escape(POSES) + r"self\.detect_collisions\(&joint_poses_f32, ([&\w.]+), (\w+)\)$", f)
+        if not m or m.group(1) not in SAF or m.group(2) not in MODE:
+            raise TranslateError(f"RobotBody::{name} changed: " + f)
+        out.append(f"/-- `RobotBody::{name}` at the scene placed by forward kinematics -/\ndef {lean} (sc : Scene R) (own other : Safety R)\n"
+                   "    (choice : List (Nat × Nat) → Option (Nat × Nat)) : List (Nat × Nat) :=\n"
+                   f"  detectCollisionsSrc sc own {SAF[m.group(1)]} {MODE[m.group(2)]} choice\n")
+    f = body_after(coll_src, "pub fn collides(&self, qs")
+    m = re.match(r"^if self\.safety\.mode == CheckMode::NoCheck \{ return false; \} " + re.escape(POSES) +
+                 r"let safety = (&[\w.]+); let override_mode = ([\w:()]+); let empty_set: HashSet<usize> = HashSet::with_capacity\(0\); "
+                 r"!self \.detect_collisions_with_skips\(&joint_poses_f32, &safety, &override_mode, &empty_set\) \.is_empty\(\)$", f)
+    if not m or m.group(1) not in SAF or m.group(2) not in MODE:
+        raise TranslateError("RobotBody::collides changed: " + f)
+    out.append("/-- `RobotBody::collides` -/\ndef collidesSrc (sc : Scene R) (own : Safety R) (choice : List (Nat × Nat) → Option (Nat × Nat)) : Bool :=\n"
+               f"  if own.mode == CheckMode.noCheck then false\n  else !(processTasksSrc sc {SAF[m.group(1)]} {MODE[m.group(2)]} (tasksSrc sc own []) choice).isEmpty\n")
+    # non_colliding_offsets: one idiom
+    f = body_after(coll_src, "pub fn non_colliding_offsets(")
+    want = ("let mut tasks = Vec::with_capacity(12); for joint_index in 0..6 { for &target in &[from, to] { tasks.push((joint_index, target)); } } "
+            "let initial_poses = kinematics.forward_with_joint_poses(initial); tasks .par_iter() .filter_map(|&(joint_index, target)| { "
+            "let mut new_joints = *initial; new_joints[joint_index] = target[joint_index]; if let Some(constraints) = kinematics.constraints() { "
+            "if !constraints.compliant(&new_joints) { return None; } } if self.safety.mode == CheckMode::NoCheck { return Some(new_joints); } "
+            "let joint_poses = kinematics.forward_with_joint_poses(&new_joints); let joint_poses_f32: [Isometry3<f32>; 6] = joint_poses.map(|pose| pose.cast::<f32>()); "
+            "let skip_indices: HashSet<usize> = (0..joint_index) .filter(|&i| joint_poses[i] == initial_poses[i]) .collect(); "
+            "if self .detect_collisions_with_skips( &joint_poses_f32, &self.safety, &Some(CheckMode::FirstCollisionOnly), &skip_indices, ) .is_empty() "
+            "{ return Some(new_joints); } else { return None; } }) .collect()")
+    if f != want:
+        raise TranslateError("non_colliding_offsets changed (twelve candidates joint by joint from/to; limits; NoCheck; skip = unchanged links before "
+                             "the tweaked joint; first-collision check with the body's own table): " + f)
+    out.append("/-- `RobotBody::non_colliding_offsets` (read as one idiom): the twelve candidates in task order, limits first, everything legal in\n"
+               "NoCheck mode, otherwise free under the first-collision check that skips the unchanged links before the tweaked joint -/\n"
+               "def nonCollidingOffsetsSrc (sceneAt : J6 R → Scene R) (unchanged : J6 R → Nat → Bool) (own : Safety R)\n"
+               "    (cons : Option (Constraints R)) (initial from_ to_ : J6 R) (choice : List (Nat × Nat) → Option (Nat × Nat)) : List (J6 R) :=\n"
+               "  ((List.range 6).flatMap (fun joint_index => [from_, to_].map (fun target => (joint_index, target)))).filterMap (fun (joint_index, target) =>\n"
+               "    let new_joints := initial.set joint_index (target.get joint_index);\n"
+               "    if (match cons with | some constraints => !constraints.compliant new_joints | none => false) then none\n"
+               "    else if own.mode == CheckMode.noCheck then some new_joints\n"
+               "    else\n"
+               "      let skip_indices := (List.range joint_index).filter (fun i => unchanged new_joints i);\n"
+               "      if (processTasksSrc (sceneAt new_joints) own (some CheckMode.firstCollisionOnly) (tasksSrc (sceneAt new_joints) own skip_indices) choice).isEmpty\n"
+               "      then some new_joints else none)\n")
+    return "\n".join(out)
+
+
 def generate_coll(coll_src):
     """`CollisionTask::collides`: the decision logic with the three parry3d queries as named oracles"""
     body, _ = fn_body(coll_src, "collides")
@@ -910,7 +1006,7 @@ def generate_coll(coll_src):
             "variable {R : Type} [OpwNum R]\n\n"
             "/-- `CollisionTask::collides` (`Some(pair)` = true): `r_min` is the pair's entry of the safety table, the three parry3d\n"
             "queries (intersection test, AABB pre-filter, distance) are parameters -/\n"
-            "def taskCollidesSrc (r_min_ : R) (intersects_ aabbNear_ : Bool) (distance_ : R) : Bool :=\n  " + term + "\n\n" + md + "\n" + check_required_src(coll_src) + "\n" + tasks_src(coll_src) + "\nend Opw.SrcColl\n")
+            "def taskCollidesSrc (r_min_ : R) (intersects_ aabbNear_ : Bool) (distance_ : R) : Bool :=\n  " + term + "\n\n" + md + "\n" + check_required_src(coll_src) + "\n" + tasks_src(coll_src) + "\n" + robot_body_src(coll_src) + "\nend Opw.SrcColl\n")
 
 
 if __name__ == "__main__":
